@@ -29,6 +29,11 @@ type seqItem struct {
 	// header (local types 0-3 only)
 	Compressed bool `json:"compressed,omitempty"`
 	TimeOffset byte `json:"time_offset,omitempty"`
+	// Tail: the definition ends in something of size zero, so the last read
+	// of the record asks for no bytes (1: an unlisted string field of size
+	// 0; 2: a developer field of size 0; 3: the developer flag with no
+	// developer fields)
+	Tail int `json:"zero_size_tail,omitempty"`
 }
 
 type seqCase struct {
@@ -89,15 +94,16 @@ func build(c seqCase) *fitmodel.Stream {
 		fitmodel.Rec{Local: 0, Raw: []byte{byte(c.FileType)}},
 	)
 	type key struct {
-		g  uint16
-		be bool
+		g    uint16
+		be   bool
+		tail int
 	}
 	var slots [16]*key
 	slots[0] = nil // force redefinition when local 0 is reused
 	for _, it := range c.Items {
 		l := it.Local & 0x0F
 		mk := marker(it.Global)
-		if slots[l] == nil || *slots[l] != (key{it.Global, it.BE}) {
+		if slots[l] == nil || *slots[l] != (key{it.Global, it.BE, it.Tail}) {
 			def := fitmodel.Rec{IsDef: true, Local: l, Global: it.Global, BigEndian: it.BE}
 			if it.Global == 0 {
 				def.Fields = append(def.Fields, fitmodel.FieldDef{Num: 0, Size: 1, Base: 0})
@@ -111,8 +117,17 @@ func build(c seqCase) *fitmodel.Stream {
 					def.Fields = append(def.Fields, fitmodel.FieldDef{Num: 2, Size: 200, Base: 0x0D}, fitmodel.FieldDef{Num: 3, Size: 120, Base: 0x0D})
 				}
 			}
+			switch it.Tail {
+			case 1:
+				def.Fields = append(def.Fields, fitmodel.FieldDef{Num: 249, Size: 0, Base: 0x07})
+			case 2:
+				def.HasDev = true
+				def.Dev = []fitmodel.DevFieldDef{{Num: 0, Size: 0, Idx: 0}}
+			case 3:
+				def.HasDev = true
+			}
 			s.Recs = append(s.Recs, def)
-			slots[l] = &key{it.Global, it.BE}
+			slots[l] = &key{it.Global, it.BE, it.Tail}
 		}
 		r := fitmodel.Rec{Local: l}
 		if it.Compressed && l <= 3 {
@@ -305,6 +320,9 @@ func drawSeq(d gen.D) seqCase {
 			it.Local = byte(d.Int(0, 3, "cl"))
 			it.Compressed = true
 			it.TimeOffset = byte(d.Int(0, 31, "toff"))
+		}
+		if tailPct := map[bool]int{false: 10, true: 40}[i == n-1]; d.Int(0, 99, "tail") < tailPct {
+			it.Tail = d.Int(1, 3, "tailkind")
 		}
 		c.Items = append(c.Items, it)
 	}
